@@ -707,6 +707,29 @@ impl Rasn {
         let mut output = TokenStream::new();
         for member in members {
             if let Some(value) = member.optionality.default() {
+                // An inline INTEGER member takes its Rust type from the PER-visible constraint.
+                // The default function has to return that type, not the one `Integer::int_type`
+                // derives from the plain ranges alone (they differ for unions and extensible
+                // serial constraints).
+                if let (ASN1Type::Integer(_), ASN1Value::LinkedIntValue { value: v, .. }) =
+                    (&member.ty, value)
+                {
+                    let (_, ty) =
+                        self.constraints_and_type_name(&member.ty, &member.name, parent_name, false)?;
+                    let val = if ty.to_string() == "Integer" {
+                        let literal = Literal::i128_suffixed(*v);
+                        quote!(Integer::from(#literal))
+                    } else {
+                        Literal::i128_unsuffixed(*v).into_token_stream()
+                    };
+                    let method_name = self.default_method_name(parent_name, &member.name);
+                    output.append_all(quote! {
+                        fn #method_name() -> #ty {
+                            #val
+                        }
+                    });
+                    continue;
+                }
                 let val = self.value_to_tokens(
                     value,
                     Some(&self.to_rust_title_case(&self.type_to_tokens(&member.ty)?.to_string())),
